@@ -22,6 +22,7 @@ from renormalizer.tn import BasisTree, TTNO, TTNS, TreeNodeBasis  # noqa: E402
 from renormalizer.tn.node import TreeNodeTensor, copy_connection  # noqa: E402
 
 EPS = np.finfo(float).eps
+MAX_CHILDREN = 3
 
 
 # ------------------------------------------------------------------------------- local matrices
@@ -333,12 +334,18 @@ def gen_spec(rng, quick=True, max_dim=160, family=None, qn_size=None, kinds=None
             groups.append([int(x) for x in perm[:k]])
             perm = perm[k:]
         nodes = [dict(parent=-1, sets=[])]
-        if len(groups) > 2 and rng.random() < 0.5:
-            nodes.append(dict(parent=0, sets=[]))
-            for g in groups[:2]:
-                nodes.append(dict(parent=1, sets=g))
-            for g in groups[2:]:
-                nodes.append(dict(parent=0, sets=g))
+        if len(groups) > 3 or (len(groups) > 2 and rng.random() < 0.5):
+            # two levels of virtual nodes, at most MAX_CHILDREN children each
+            rest = list(groups)
+            while rest:
+                if len(rest) == 1 and len(nodes) > 1:
+                    nodes.append(dict(parent=0, sets=rest.pop(0)))
+                    break
+                nodes.append(dict(parent=0, sets=[]))
+                v = len(nodes) - 1
+                for g in rest[:2]:
+                    nodes.append(dict(parent=v, sets=g))
+                rest = rest[2:]
         else:
             for g in groups:
                 nodes.append(dict(parent=0, sets=g))
@@ -354,15 +361,19 @@ def gen_spec(rng, quick=True, max_dim=160, family=None, qn_size=None, kinds=None
         if len(groups) < 2:
             groups.append([])
         nodes = []
+        nchild = {}
         for i, g in enumerate(groups):
             if i == 0:
                 p = -1
             elif family == "linear":
                 p = i - 1
-            elif family == "star":
-                p = 0
             else:
-                p = int(rng.integers(0, i))
+                p = 0 if family == "star" else int(rng.integers(0, i))
+                # <= 3 children per node: the library asks opt_einsum for the *optimal* path, whose
+                # search is factorial in the number of tensors (children + 3); 5 children take minutes
+                while nchild.get(p, 0) >= MAX_CHILDREN:
+                    p = (p + 1) % i
+            nchild[p] = nchild.get(p, 0) + 1
             nodes.append(dict(parent=p, sets=g))
     spec = dict(qn_size=qn_size, basis=basis, nodes=nodes, terms=[], family=str(family), trivial_qn=bool(trivial_qn))
     spec["terms"] = gen_terms(rng, spec)
